@@ -5,7 +5,6 @@ import (
 	"math/rand/v2"
 	"net"
 	"net/http"
-	"net/http/httptest"
 	"strings"
 	"sync"
 
@@ -275,14 +274,13 @@ func c19Sockets(c *Ctx) {
 		mu.Unlock()
 	})
 	for _, network := range []struct{ name, listen string }{{"tcp4", "127.0.0.1:0"}, {"tcp6", "[::1]:0"}} {
-		l, err := net.Listen(network.name, network.listen)
+		probe, err := listenRetry(network.name, network.listen)
 		if err != nil {
 			c.Count("listen_failed_"+network.name, 1)
 			continue
 		}
-		srv := httptest.NewUnstartedServer(h)
-		srv.Listener.Close()
-		srv.Listener = l
+		probe.Close()
+		srv := newUnstartedServer(h, network.name, network.listen)
 		srv.Start()
 		n := c.N(20, 200)
 		for i := 0; i < n; i++ {
